@@ -106,4 +106,20 @@ InvPos == \A x \in Ctxs : ctx[x].live =>
                  /\ c.ctr = Words(p[1], (IF c.off = B THEN p[2] ELSE p[2] + 1))
                  /\ c.cache = KSBlock(Words(p[1], p[2]))
 Emit == (Gen /\ nops = MaxOps) => PrintT(ToJson(<<"GEN", hist>>))
+\* ---- guided generation ("position matrix"): every history  process? (seek | set_counter){0,2} process{1,2}  on context 1: every pair of
+\* (where the context stood - mid-block, block end, fresh) x (where it is sent - the same block, the next, the previous, twice in a row),
+\* then output.  Used as a CONSTRAINT together with EmitPos; the plain generation tree contains these histories only in sampled form.
+IsProc(o) == o = "process"                    \* (process_mut shares the position logic and is exercised by the plain generation tree)
+IsSeek(o) == o \in {"seek", "set_counter"}
+PosStep(st, e) == IF e.x # 1 THEN <<9, 0>>
+                  ELSE CASE st[1] = 0 /\ IsProc(e.op) -> <<1, 1>>
+                         [] st[1] \in {0, 1} /\ IsSeek(e.op) -> <<2, 1>>
+                         [] st[1] = 1 /\ IsProc(e.op) -> <<3, 2>>
+                         [] st[1] = 2 /\ IsSeek(e.op) /\ st[2] < 2 -> <<2, st[2] + 1>>
+                         [] st[1] = 2 /\ IsProc(e.op) -> <<3, 1>>
+                         [] st[1] = 3 /\ IsProc(e.op) /\ st[2] < 2 -> <<3, st[2] + 1>>
+                         [] OTHER -> <<9, 0>>
+PosPhase == FoldLeft(PosStep, <<0, 0>>, hist)
+PosShape == PosPhase[1] # 9
+EmitPos == (Gen /\ PosPhase[1] = 3 /\ \E i \in 1..Len(hist) : IsSeek(hist[i].op)) => PrintT(ToJson(<<"GEN", hist>>))
 =============================================================================
